@@ -84,6 +84,10 @@ def run(ctx):
         ctx.count("C10-transitivity", len(targs), set(targs[:0]))
         core.record_failures(ctx, "C10-transitivity", "c10_trans_pred", ok,
                              lambda m, k=k: {"backend": k, "programs": [progs[x] for x in tdesc[m]]})
+    # equal URLs hash equally whatever was done to the URLs they were derived from
+    import suites
+    suites.touch_invariance(ctx, "C10-used-intermediates",
+                            gens.random_programs(rng, 400 if ctx.quick else 6000, maxops=3), 400 if ctx.quick else 6000)
     # never equal to a non-URL object (type-dispatch glue, implementation only)
     probe = core.run_all(ctx, [core.call_line("not_equal_non_url")], kinds=("py", "c"))
     for k, o in probe.items():
